@@ -336,7 +336,8 @@ def run(ctx):
     # (nv, repmax(model), maxinc, delete, mismatch, sample)
     cfgs = [(2, 2, 2, True, True, None), (2, 3, 2, False, True, None), (2, 4, 2, True, True, None), (1, 7, 2, True, True, None),
             (2, 4, 3, True, False, 250 if not thorough else 3000), (2, 7, 2, False, True, None if thorough else 120),
-            (11, 2, 2, True, False, 60 if not thorough else 600)]      # two-digit variation indexes in the partial file names
+            (11, 2, 2, True, False, 60 if not thorough else 600),      # two-digit variation indexes in the partial file names
+            (3, 1, 2, True, True, None), (2, 1, 3, True, False, None)]  # rep_max 1 (the default): only the first-repetition path runs
     if thorough:
         cfgs += [(3, 4, 2, True, True, None), (2, 7, 3, True, False, 3000), (2, 10, 2, True, True, None)]
     with ThreadPoolExecutor(4) as ex:
